@@ -1131,8 +1131,8 @@ class Engine:
                     s = s.assume(z3.Implies(a, fl.fn(R, *[a.arg(i) for i in range(1, a.num_args())])))
         # [elt for x in L if c(x)] with a side-effect free condition: the result is empty iff no element of L satisfies c (filter lemma:
         # induction on L); when elt is x itself, every element of the result satisfies c.  Either the contract names the predicates
-        # (filter_specs: obligation "in every evaluation of the condition at an arbitrary element its truth value is P(x)") or c is read off the
-        # evaluated condition when that is a closed term of the element (no constants created by the evaluation).
+        # (filter_specs: obligation "in every evaluation of the condition at an arbitrary element its truth value is P(x)"); without filter_specs the
+        # result stays an opaque list no longer than its source.
         if len(desc.sources) == 1 and desc.sources[0][0] == 'list' and not desc.enumerate and isinstance(g.target, ast.Name) and len(g.ifs) == 1 and z3.is_expr(x):
             same_elt = isinstance(e.elt, ast.Name) and e.elt.id == g.target.id
             seq = z3.simplify(self.src_seq(desc.sources[0][0], desc.sources[0][1], st))
@@ -1159,37 +1159,6 @@ class Engine:
                     if spec[3].base is not kept_fl:
                         raise OutOfSubset("filter_specs: the count function must count the kept predicate")
                     s = s.assume(length(R) == spec[3](seq, *ps))      # filter lemma: as many results as elements satisfying P
-            elif pure and paths:
-                xv = z3.Const(f"filt_x!{next(VAL._fresh)}", V)
-                cterm = z3.substitute(z3.simplify(z3.Or(*[z3.And(*s2.conds[len(inner.conds):], tv) for (s2, tv) in paths])), (z3.simplify(x), xv))
-                closed = k0.get_id() not in VAL._subterm_ids(cterm)
-                stack, seen = [cterm], set()
-                while stack and closed:
-                    t_ = stack.pop()
-                    if t_.get_id() in seen:
-                        continue
-                    seen.add(t_.get_id())
-                    if z3.is_const(t_) and t_.decl().kind() == z3.Z3_OP_UNINTERPRETED and not t_.eq(xv):
-                        m_ = re.search(r'!(\d+)$', t_.decl().name())
-                        if m_ and int(m_.group(1)) >= fresh_mark:
-                            closed = False       # a constant created while evaluating the condition (e.g. a callee result): not a function of the element
-                    stack.extend(t_.children())
-                if closed:
-                    nm = f"filter{next(VAL._fresh)}"
-
-                    def existing(body):
-                        # reuse a declared "all elements satisfy P" predicate whose P is this very condition (so contracts can name it)
-                        probe = z3.Const('filt_probe', V)
-                        want = z3.simplify(z3.substitute(body, (xv, probe)))
-                        for fl in list(ForallList._made.values()):
-                            try:
-                                if not fl.param_sorts and z3.simplify(fl.pred(probe)).eq(want):
-                                    return fl
-                            except Exception:
-                                pass
-                        return None
-                    none_ = existing(z3.Not(cterm)) or ForallList(nm + '_rejected', lambda y, c=cterm, xv=xv: z3.Not(z3.substitute(c, (xv, y))))
-                    all_ = existing(cterm) or ForallList(nm + '_kept', lambda y, c=cterm, xv=xv: z3.substitute(c, (xv, y)))
             if none_ is not None:
                 s = s.assume(VL.is_nil(R) == none_(seq))
                 if same_elt:
